@@ -308,6 +308,9 @@ enum Piece {
     /// `//@ expect <file> "<text>"`: the (whitespace-normalised) text must occur in the file, else the
     /// anchor is lost (structural facts a contract relies on, e.g. that an impl invokes a macro)
     Expect(usize, String, String),
+    /// `//@ expect-impl <file> "<Trait> for <Type>" m1,m2`: that trait impl must define exactly these methods (a new
+    /// method would OVERRIDE a default the contracts assume -- e.g. `write_all` of `Write` -- without being under contract)
+    ExpectImpl(usize, String, String, Vec<String>),
 }
 
 fn parse_clause_lines(lines: &[(usize, String)]) -> Vec<Clause> {
@@ -379,6 +382,16 @@ fn parse_unit(path: &str) -> (Vec<Piece>, Vec<(String, String)>) {
             }
             if let Some(a) = rest.strip_prefix("struct ") {
                 pieces.push(Piece::Struct(i + 1, a.trim().to_string()));
+                i += 1;
+                continue;
+            }
+            if let Some(a) = rest.strip_prefix("expect-impl ") {
+                let (f, t) = a.trim().split_once(' ').unwrap_or_else(|| bail!("line {}: expect-impl <file> \"Trait for Type\" m1,m2", i + 1));
+                let t = t.trim();
+                let close = t[1..].find('"').unwrap_or_else(|| bail!("line {}: expect-impl: unterminated quote", i + 1)) + 1;
+                let head = t[1..close].to_string();
+                let ms: Vec<String> = t[close + 1..].split(',').map(|m| m.trim().to_string()).filter(|m| !m.is_empty()).collect();
+                pieces.push(Piece::ExpectImpl(i + 1, f.trim().to_string(), head, ms));
                 i += 1;
                 continue;
             }
@@ -1493,6 +1506,46 @@ fn main() {
                     bail!("lost anchor in {}: expected text (unit line {}) not found: {}", file, ln, text);
                 }
                 expects.push(json!({"file": file, "text": text, "vrs_line": ln}));
+            }
+            Piece::ExpectImpl(ln, file, head, methods) => {
+                let src = srcs.entry(file.to_string()).or_insert_with(|| Src::load(root, file));
+                let (want_trait, want_type) = head.split_once(" for ").unwrap_or_else(|| bail!("line {}: expect-impl head must be `Trait for Type`", ln));
+                let mut found: Option<Vec<String>> = None;
+                fn walk(items: &[syn::Item], want_trait: &str, want_type: &str, found: &mut Option<Vec<String>>) {
+                    for it in items {
+                        match it {
+                            syn::Item::Impl(im) => {
+                                let tr = im.trait_.as_ref().and_then(|(_, p, _)| p.segments.last().map(|s| s.ident.to_string()));
+                                let ty = match &*im.self_ty {
+                                    syn::Type::Path(tp) => tp.path.segments.last().map(|s| s.ident.to_string()),
+                                    _ => None,
+                                };
+                                if tr.as_deref() == Some(want_trait) && ty.as_deref() == Some(want_type) {
+                                    let ms: Vec<String> = im.items.iter().filter_map(|x| if let syn::ImplItem::Fn(f) = x { Some(f.sig.ident.to_string()) } else { None }).collect();
+                                    match found {
+                                        Some(v) => v.extend(ms),
+                                        None => *found = Some(ms),
+                                    }
+                                }
+                            }
+                            syn::Item::Mod(m) => {
+                                if let Some((_, its)) = &m.content {
+                                    walk(its, want_trait, want_type, found)
+                                }
+                            }
+                            _ => {}
+                        }
+                    }
+                }
+                walk(&src.file.items, want_trait.trim(), want_type.trim(), &mut found);
+                let mut have = found.unwrap_or_else(|| bail!("lost anchor in {}: impl {} (unit line {}) not found", file, head, ln));
+                have.sort();
+                let mut want = methods.clone();
+                want.sort();
+                if have != want {
+                    bail!("lost anchor in {}: impl {} defines methods {:?}, the contracts expect exactly {:?} (a method that overrides a trait default is code outside the contracts)", file, head, have, want);
+                }
+                expects.push(json!({"file": file, "text": format!("impl {} {{ {} }}", head, want.join(", ")), "vrs_line": ln}));
             }
             Piece::Import(ln, ufile, anchor) => {
                 let saved = INCLUDED.with(|s| s.borrow().clone());
